@@ -5,6 +5,8 @@ from .c01 import some_edge_of
 
 REORDER = r"::(rev|rfind|rposition|last|max_by|max_by_key|min_by|min_by_key|max|min|fold|reduce|rfold|try_rfold|nth_back|next_back|sort|sort_by|sort_by_key|sort_unstable|sort_unstable_by|sort_unstable_by_key|skip|step_by|skip_while)$"
 FIRST_MATCH = r"Iterator>?::(find|position|find_map)$|^std::iter::Iterator::(find|position|find_map)$"
+LOOP_NEXT = r"^<std::slice::Iter<'a, T> as std::iter::Iterator>::next$"
+PREDICATE = r"krauss::wildcard_match$|Route>?::route_matches$|route::Route::route_matches$"
 
 
 def field_idx(prog, struct, name):
@@ -16,7 +18,7 @@ def classify_selection(prog, b, d, idx):
     # d is the description of the iterator receiver
     def has_param(x, name):
         return desc_contains(x, lambda y: y[0] in ("param", "upvar") and y[-1] == name)
-    inner_find = desc_contains(d, lambda y: y[0] == "call" and core.re.search(FIRST_MATCH, y[1]) is not None)
+    inner_find = desc_contains(d, lambda y: y[0] == "call" and (core.re.search(FIRST_MATCH, y[1]) is not None or core.re.search(LOOP_NEXT, y[1]) is not None))
     if inner_find and has_param(d, "subapps"):
         if desc_contains(d, lambda y: y[0] == "field" and y[2] == idx["routes"]):
             return "sub.routes"
@@ -69,7 +71,39 @@ def analyse(chk, prog, cfg, fn, kind, facts):
                 sels[cls]["all"].append(blk)
             else:
                 sels[cls] = {"block": blk, "closure": clos[1] if clos[0] == "closure" else None, "direct": direct, "all": [blk]}
+    # loop form: `for x in V { if pred(x) { <use x>; return / break } }` — the selection is the loop, its "found" edges are the true
+    # edges of the predicate on the loop variable, its "nothing found" edge is the loop's exit
+    for blk, t in b.calls_to(LOOP_NEXT):
+        recv = describe(prog, b, t["args"][0])
+        if not (recv[0] == "call" and recv[1].endswith("IntoIterator>::into_iter") or recv[0] == "call" and recv[1].endswith("::into_iter") or
+                recv[0] == "call" and recv[1].endswith("::iter")):
+            continue
+        cls = classify_selection(prog, b, recv[2][0], idx)
+        if cls is None or cls in sels:
+            continue
+        preds = []
+        for pb, pt in b.calls_to(PREDICATE):
+            a0 = describe(prog, b, pt["args"][0])
+            if desc_contains(a0, lambda y: y[0] == "call" and len(y) > 3 and y[3] == blk) and not \
+                    desc_contains(a0, lambda y: y[0] == "call" and core.re.search(LOOP_NEXT, y[1]) is not None and y[3] != blk and
+                                  desc_contains(y, lambda z: z[0] == "call" and len(z) > 3 and z[3] == blk)):
+                sw = core.bool_test_of_call(b, pb)
+                if sw is not None:
+                    preds.append((pb, pt, sw))
+        if len(preds) != 1:
+            continue
+        pb, pt, sw = preds[0]
+        # first match: once the predicate held for an element the loop does not go on to the next one
+        again = blk in b.reachable([sw[1]])
+        sels[cls] = {"block": blk, "closure": None, "direct": not again, "all": [blk], "loop": True, "pred": (pb, pt), "some": [(sw[0], sw[1])],
+                     "none": some_edge_of(prog, b, blk, "None"), "again": again}
     want = ["subapps", "sub.routes", "def.routes"] if kind == "http" else ["subapps", "sub.ws", "def.ws"]
+
+    def sel_edges(blk, label, union=False):
+        for v in sels.values():
+            if v.get("loop") and v["block"] == blk:
+                return list(v["some"] if label == "Some" else v["none"])
+        return some_edge_of(prog, b, blk, label, union=union)
     for w in want:
         fact("R1.first_match", f"first-match selection over {w} in registration order", w in sels and sels[w]["direct"],
              f"no `iter().find(..)`-style first-match selection over {w} (found selections over {sorted(str(k) for k in sels)})")
@@ -82,7 +116,16 @@ def analyse(chk, prog, cfg, fn, kind, facts):
     def closure_body(w):
         return prog.bodies.get(sels[w]["closure"]) if sels[w]["closure"] else None
     hc = closure_body("subapps")
-    if hc:
+    if sels["subapps"].get("loop"):
+        pb, pt = sels["subapps"]["pred"]
+        a0, a1 = describe(prog, b, pt["args"][0]), describe(prog, b, pt["args"][1])
+        fact("R2.roles", "host closure calls wildcard_match", pt["callee"].endswith("wildcard_match"), f"predicate is {pt['callee']}")
+        ok0 = desc_contains(a0, lambda y: y[0] == "field" and y[2] == idx["host"] and desc_contains(y[1], lambda z: z[0] == "call" and len(z) > 3 and z[3] == sels["subapps"]["block"]))
+        ok1 = desc_contains(a1, lambda y: y[0] == "call" and y[1].endswith("Headers::get") and any(core.is_variant(z, "HeaderType", "Host") for z in y[2]))
+        ok1 = ok1 and desc_contains(a1, lambda y: y[0] == "field" and y[2] == req_headers)
+        fact("R2.roles", "wildcard_match(pattern <- SubApp.host, text <- request Host header)", ok0 and ok1,
+             f"wildcard_match is called with ({core.short(str(a0))[:80]}, {core.short(str(a1))[:120]})", where=b.where(pb))
+    elif hc:
         calls = hc.calls_to(r"krauss::wildcard_match$")
         fact("R2.roles", "host closure calls wildcard_match", len(calls) == 1, f"{len(calls)} wildcard_match calls")
         for blk, t in calls:
@@ -95,6 +138,16 @@ def analyse(chk, prog, cfg, fn, kind, facts):
                  f"wildcard_match is called with ({core.short(str(a0))[:80]}, {core.short(str(a1))[:120]})", where=hc.where(blk))
     for w in want[1:]:
         rc = closure_body(w)
+        if sels[w].get("loop"):
+            pb, pt = sels[w]["pred"]
+            fact("R2.roles", f"{w}: closure calls route_matches", pt["callee"].endswith("route_matches") or (pt.get("resolved") or "").endswith("route_matches"), f"predicate is {pt['callee']}")
+            a0, a1 = describe(prog, b, pt["args"][0]), describe(prog, b, pt["args"][1])
+            ok0 = desc_contains(a0, lambda y: y[0] == "field" and y[2] == ridx["route"] and desc_contains(y[1], lambda z: z[0] == "call" and len(z) > 3 and z[3] == sels[w]["block"]))
+            ok1 = desc_contains(a1, lambda y: y[0] == "field" and y[2] == req_uri and desc_contains(y[1], lambda z: z[0] in ("param", "upvar") and z[-1] == "request"))
+            bad = desc_contains(a1, lambda y: y[0] == "field" and y[2] == req_query)
+            fact("R2.roles", f"{w}: route_matches(pattern <- route.route, text <- request.uri)", ok0 and ok1 and not bad,
+                 f"route_matches is called with ({core.short(str(a0))[:80]}, {core.short(str(a1))[:120]})", where=b.where(pb))
+            continue
         if not rc:
             fact("R2.roles", f"{w}: predicate is a closure", False, "selection predicate is not a local closure")
             continue
@@ -117,28 +170,53 @@ def analyse(chk, prog, cfg, fn, kind, facts):
     for name, blk in [("host-header", host_get[0] if host_get else None), ("host-sel", sels["subapps"]["block"]), ("sub-route", sels[want[1]]["block"]), ("def-route", sels[want[2]]["block"])]:
         if blk is None:
             continue
-        some_edges[name] = some_edge_of(prog, b, blk, "Some")
-        for e in some_edge_of(prog, b, blk, "None"):
+        some_edges[name] = sel_edges(blk, "Some")
+        for e in sel_edges(blk, "None", union=True):
             if name != "def-route":
                 none_edges.add(e)
-    def_none = set(e for blk in sels[want[2]]["all"] for e in some_edge_of(prog, b, blk, "None"))
-    def_some = set(e for blk in sels[want[2]]["all"] for e in some_edge_of(prog, b, blk, "Some"))
-    sub_some = set(some_edge_of(prog, b, sels[want[1]]["block"], "Some"))
+    def_none = set(e for blk in sels[want[2]]["all"] for e in sel_edges(blk, "None"))
+    def_some = set(e for blk in sels[want[2]]["all"] for e in sel_edges(blk, "Some"))
+    sub_some = set(sel_edges(sels[want[1]]["block"], "Some"))
     # use sites: returned handler (http) / served handler (ws)
     uses = []   # (block, 'sub'|'def'|'none')
+    merged_uses = set()
+
+    def add_use(blk, d):
+        """One use per origin: a value merged from several places (`a.or_else(|| b)`, a `let` assigned in two arms) is a use of each
+        alternative at the place where that alternative is chosen."""
+        o = _origin(d, sels, want)
+        if o == "unknown":
+            m = next((y for y in core.desc_subterms(d) if y[0] == "multi" and len(y) >= 5 and len(y[1]) == len(y[4])), None)
+            # outermost merge first: desc_subterms is depth-first from the root
+            if m is not None:
+                for alt, ablk in zip(m[1], m[4]):
+                    if core.is_variant(alt, "Option", "None"):
+                        continue
+                    merged_uses.add(ablk)
+                    add_use(ablk, alt)
+                return
+        uses.append((blk, o))
     if kind == "http":
         for blk_i, blk in enumerate(b.blocks):
             for s in blk["stmts"]:
-                if "pl" in s and s["pl"]["l"] == 0 and not s["pl"]["p"] and s["rv"]["k"] == "agg":
-                    if s["rv"]["variant"] == "None":
-                        uses.append((blk_i, "none"))
-                    else:
-                        d = describe(prog, b, s["rv"]["ops"][0])
-                        uses.append((blk_i, _origin(d, sels, want)))
+                if "pl" in s and s["pl"]["l"] == 0 and not s["pl"]["p"]:
+                    if s["rv"]["k"] == "agg":
+                        if s["rv"]["variant"] == "None":
+                            uses.append((blk_i, "none"))
+                        else:
+                            add_use(blk_i, describe(prog, b, s["rv"]["ops"][0]))
+                    elif s["rv"]["k"] == "use":
+                        # the result of a selection returned as it is: its element if it found one, otherwise "no route"
+                        d = describe(prog, b, s["rv"]["o"])
+                        if core.is_variant(d, "Option", "None"):
+                            uses.append((blk_i, "none"))
+                        else:
+                            merged_uses.add(blk_i)
+                            add_use(blk_i, d)
+                            uses.append((blk_i, "none" if _origin(d, sels, want) != "def" else "none-is-default's"))
     else:
         for blk, t in b.calls_to(r"WebsocketHandler::serve$"):
-            d = describe(prog, b, t["args"][0])
-            uses.append((blk, _origin(d, sels, want)))
+            add_use(blk, describe(prog, b, t["args"][0]))
         for r in core.return_blocks(b):
             uses.append((r, "exit"))
     kinds = [k for _, k in uses]
@@ -148,7 +226,9 @@ def analyse(chk, prog, cfg, fn, kind, facts):
     entry = [0]
     for blk, k in uses:
         if k == "sub":
-            ok = all(any(b.edge_dominates(s, t, blk) for (s, t) in some_edges.get(n, [])) for n in ("host-header", "host-sel", "sub-route"))
+            # (decided on the product with the variant each Option local holds: a `?` that returned None cannot reach a Some arm)
+            ok = all(bool(some_edges.get(n)) and core.must_pass(b, entry, [blk], through_edges=set(some_edges[n]), after_from=False) is None
+                     for n in ("host-header", "host-sel", "sub-route"))
             fact("R3.precedence", "sub-app handler used only when Host, host pattern and sub-app route all matched", ok,
                  "the host-specific handler is used on a path where one of the three matches failed", where=b.where(blk))
         elif k == "def":
@@ -156,8 +236,11 @@ def analyse(chk, prog, cfg, fn, kind, facts):
             fact("R3.precedence", "default handler used only after a None edge of Host / host selection / sub-app route selection", w is None,
                  "the default application's route is used although the host-specific sub-app may have a matching route (default consulted first)",
                  where=b.where(blk), path=w)
-            ok = any(b.edge_dominates(s, t, blk) for (s, t) in def_some)
+            # (where the selection's result is passed on as an Option, taking the element out of it is the Some edge)
+            ok = any(b.edge_dominates(s, t, blk) for (s, t) in def_some) or blk in merged_uses
             fact("R3.precedence", "default handler use dominated by its own Some edge", ok, "", where=b.where(blk))
+        elif k == "none-is-default's":
+            fact("R5.no_match", "None only after the default selection found nothing", True, where=b.where(blk))
         elif k == "none":
             w = core.must_pass(b, entry, [blk], through_edges=def_none, after_from=False)
             fact("R5.no_match", "None only after the default selection found nothing", w is None,
